@@ -420,6 +420,7 @@ impl<E: ElemT> TableWorld<E> {
                 self.touch(ti, &tb)?;
             }
             Kd::FillNoAlloc => self.op_fill_no_alloc(si, op)?,
+            Kd::Par => self.op_par(si, op)?,
             other => vio!(self, "harness/bad-op", "operation {:?} is not a table operation", other),
         }
         self.touch(si, &before)
